@@ -9,6 +9,7 @@ use kvh::rng::Rng;
 use serde_json::{json, Value};
 
 fn main() {
+    kvh::panicrec::install();
     let args: Vec<String> = std::env::args().collect();
     let mut out = String::from("/verif/.cache/run/C06");
     let mut n = 60usize;
